@@ -47,6 +47,12 @@ FusionShaped ==
     /\ \A i \in 1..Len(graph) : graph[i].k = "mul" => UsesOf(i) <= 1
     /\ \A i \in 1..Len(graph) : graph[i].k \in {"add", "mul"} => graph[graph[i].a].k # "const" /\ graph[graph[i].b].k # "const"
 
+\* Horner chains: every step continues the previous one (accumulator = previous result, same alpha) - the shape the
+\* prover packs into one row of up to `horner_packed_steps` steps
+HornerChain ==
+    \A i \in 2..Len(calls) : (calls[i].op = "horner" /\ calls[i - 1].op = "horner") =>
+        (handles[calls[i].args[1] + 1] = calls[i - 1].ret /\ calls[i].args[2] = calls[i - 1].args[2])
+
 \* Invariants for the guarded (sound) design
 SoundC03 == OpsImplySource
 SoundC02 == stage = "done" => \A env \in Envs : ValuesPreservedAt(env) /\ ViolationDetectedAt(env)
